@@ -44,6 +44,7 @@ CONSTANTS NSap,        \* size of the SAP table (64; scaled 8)
           WksCheck, SnlClean, KeepDead,
           Miu,         \* [side -> link MIU the side announces]; a sender's limit is the receiver's MIU
           Lens,        \* datagram payload lengths offered to sendto()             (model checking only)
+          InsertLast,  \* (wrong variant) accept() puts the new socket before the LAST socket of the access point instead of first (code: FALSE)
           HdrInMiu     \* (wrong variant) the receiving socket counts the 2-octet UI header against its MIU (code: FALSE)
 
 Sides == {"A", "B"}
@@ -147,7 +148,7 @@ AcceptR(x, c, l) ==
         \* (ghost) the new socket belongs to the service the access point was bound under
         new == [NewSock("dlc") EXCEPT !.addr = k.addr, !.peer = req.ssap, !.st = "conn", !.origin = "accept", !.name = k.name]
     IN [w |-> [x EXCEPT !.sk[c] = Append([@ EXCEPT ![l].rq = Tail(@)], new),
-                        !.sap[c][k.addr] = <<n>> \o @,
+                        !.sap[c][k.addr] = IF InsertLast /\ Len(@) > 0 THEN SubSeq(@, 1, Len(@) - 1) \o <<n, @[Len(@)]>> ELSE <<n>> \o @,
                         !.sk[p][req.m].st = "conn", !.sk[p][req.m].peer = k.addr],
         res |-> "OK", new |-> n]
 
@@ -190,9 +191,10 @@ RecvFromR(x, c, s) ==
 \* taken out of its access point by that, only the application's close() does so                    llc.py recv/recvfrom
 RecvR(x, c, s) ==
     LET k == x.sk[c][s] IN
-    IF k.addr = NoAddr \/ ~Occupied(x, c, k.addr) THEN [w |-> x, res |-> "BadF"]
-    ELSE IF k.st = "cw" THEN [w |-> [x EXCEPT !.sk[c][s].st = "dead"], res |-> "EOF"]
-    ELSE [w |-> x, res |-> "NotConn"]                                                       \* ENOTCONN
+    IF k.addr = NoAddr \/ ~Occupied(x, c, k.addr) THEN [w |-> x, res |-> "BadF", m |-> 0]
+    ELSE IF k.st = "cw" THEN [w |-> [x EXCEPT !.sk[c][s].st = "dead"], res |-> "EOF", m |-> 0]
+    ELSE IF k.st = "conn" THEN [w |-> [x EXCEPT !.sk[c][s].rq = Tail(@)], res |-> "Data", m |-> Head(k.rq).m]   \* data waiting
+    ELSE [w |-> x, res |-> "NotConn", m |-> 0]                                              \* ENOTCONN
 
 \* the remote end of connection s reports a protocol error: an FRMR PDU for (s.addr, s.peer) arrives    tco.py:_enqueue_state_established
 PeerFrmrR(x, c, s) == [w |-> [x EXCEPT !.sk[c][s].st = "dead", !.sk[c][s].rq = <<>>], res |-> "OK"]
@@ -229,6 +231,14 @@ CloseR(x, c, s, fx) ==
 OtherEnd(x, c, s) == LET k == x.sk[c][s] IN
                      FirstWhere(x, Peer(c), x.sap[Peer(c)][k.peer], LAMBDA q : q.peer = k.addr \/ q.peer = NoAddr)
 
+\* send() on an established connection: the I PDU is handed to the FIRST socket of the peer's access point whose peer
+\* is the sender (or that has none); only a socket in ESTABLISHED state takes it, any other drops it silently
+DSendR(x, c, s, m) ==
+    LET k == x.sk[c][s]  p == Peer(c)  t == OtherEnd(x, c, s) IN
+    IF t # 0 /\ x.sk[p][t].kind = "dlc" /\ x.sk[p][t].st = "conn"
+    THEN [w |-> [x EXCEPT !.sk[p][t].rq = Append(@, [m |-> m, ssap |-> k.addr, to |-> k.peer, len |-> 1])], res |-> "OK", got |-> t]
+    ELSE [w |-> x, res |-> "OK", got |-> 0]
+
 \* ------------------------------------------------------------------ properties (C17)
 Ids(x, c) == 1..Len(x.sk[c])
 InList(x, c, a, i) == \E j \in DOMAIN x.sap[c][a] : x.sap[c][a][j] = i
@@ -255,6 +265,11 @@ RangesRespectedP(x) == \A c \in Sides : \A i \in Ids(x, c) : LET k == x.sk[c][i]
 FreedOnLastCloseP(x) == \A c \in Sides : \A a \in Addrs \ {0, 1} :
                             /\ \A j \in DOMAIN x.sap[c][a] : Live(x.sk[c][x.sap[c][a][j]])
                             /\ (\A i \in Ids(x, c) : ~(Live(x.sk[c][i]) /\ x.sk[c][i].addr = a)) => x.sap[c][a] = <<>>
+\* every connection-mode PDU reaches the socket of the LIVE connection (addr, peer): in no access point does a socket
+\* that is not ESTABLISHED (CLOSE_WAIT, shut down, listening) stand before an ESTABLISHED one it would shadow
+LiveFirstP(x) == \A c \in Sides : \A a \in Addrs \ {0, 1} : \A i, j \in DOMAIN x.sap[c][a] :
+                    LET u == x.sk[c][x.sap[c][a][i]]  v == x.sk[c][x.sap[c][a][j]] IN
+                    ~(i < j /\ u.kind = "dlc" /\ u.st # "conn" /\ v.st = "conn" /\ u.peer \in {NoAddr, v.peer})
 \* every datagram waiting at a socket was sent to the address that socket is bound to
 DatagramP(x) == \A c \in Sides : \A i \in Ids(x, c) : x.sk[c][i].kind # "dlc" =>
                     \A j \in DOMAIN x.sk[c][i].rq : x.sk[c][i].rq[j].to = x.sk[c][i].addr /\ InList(x, c, x.sk[c][i].addr, i)
@@ -285,6 +300,7 @@ NoDoubleAlloc == NoDoubleAllocP(w)
 RangesRespected == RangesRespectedP(w)
 FreedOnLastClose == FreedOnLastCloseP(w)
 Datagram == DatagramP(w)
+LiveFirst == LiveFirstP(w)
 \* the step properties are action properties over (w, w', last'): TLC checks them on every transition, also
 \* on those that lead to a world already seen (the VIEW is the world alone)
 ResolveRight  == [][ResolveRightP(w, last')]_vars
@@ -355,8 +371,14 @@ SendTo(c, s, dst, m, n) ==
                                                                    !.ln = n, !.hit = r.hit]
 \* recv() on a connection-mode socket, never where it would block (connected with nothing to read, connecting)
 Recv(c, s) ==
-    /\ Can(c, "Recv") /\ Alive(c, s) /\ w.sk[c][s].kind = "dlc" /\ w.sk[c][s].st \notin {"conn", "connecting"}
-    /\ LET r == RecvR(w, c, s) IN w' = r.w /\ last' = [Rec("Recv", c, s, w) EXCEPT !.res = r.res]
+    /\ Can(c, "Recv") /\ Alive(c, s) /\ w.sk[c][s].kind = "dlc" /\ w.sk[c][s].st # "connecting"
+    /\ (w.sk[c][s].st = "conn" => w.sk[c][s].rq # <<>>)
+    /\ LET r == RecvR(w, c, s) IN w' = r.w /\ last' = [Rec("Recv", c, s, w) EXCEPT !.res = r.res, !.m = r.m]
+\* data on an established connection whose other end has read what was sent before (receive window 1)
+DSend(c, s, m) ==
+    /\ Can(c, "DSend") /\ Alive(c, s) /\ w.sk[c][s].kind = "dlc" /\ w.sk[c][s].st = "conn"
+    /\ OtherEnd(w, c, s) # 0 => w.sk[Peer(c)][OtherEnd(w, c, s)].rq = <<>>
+    /\ LET r == DSendR(w, c, s, m) IN w' = r.w /\ last' = [Rec("DSend", c, s, w) EXCEPT !.res = r.res, !.m = m, !.got = r.got]
 \* an FRMR PDU for an established connection arrives (a protocol error reported by the remote device)
 PeerFrmr(c, s) ==
     /\ Can(c, "PeerFrmr") /\ Alive(c, s) /\ w.sk[c][s].kind = "dlc" /\ w.sk[c][s].st = "conn"
@@ -395,6 +417,7 @@ Next == \E c \in Sides :
                 \/ RecvFrom(c, s)
                 \/ Recv(c, s)
                 \/ PeerFrmr(c, s)
+                \/ \E m \in Msgs : DSend(c, s, m)
                 \/ Close(c, s)
           \/ \E n \in Names : Resolve(c, n)
 
@@ -408,6 +431,9 @@ W_DynExhausted   == ~(last.op = "BindNone" /\ last.res = "Exhausted")
 W_Shared         == ~(\E c \in Sides : \E a \in Addrs : Len(w.sap[c][a]) >= 2)
 W_Delivered      == ~(last.op = "RecvFrom" /\ last.res = "OK")
 W_FullSize       == ~(last.op = "RecvFrom" /\ last.res = "OK" /\ last.ln = w.miu[last.c])        \* a payload of exactly the MIU arrived
+W_Reconnected    == ~(\E c \in Sides : \E a \in Addrs : \E i, j \in DOMAIN w.sap[c][a] : i < j /\ w.sk[c][w.sap[c][a][i]].st = "conn"
+                          /\ w.sk[c][w.sap[c][a][j]].st \in {"cw", "dead"} /\ w.sk[c][w.sap[c][a][i]].peer = w.sk[c][w.sap[c][a][j]].peer)
+W_DataAfterReuse == ~(last.op = "Recv" /\ last.res = "Data" /\ \E a \in Addrs : Len(w.sap[last.c][a]) >= 3)
 W_TooLong        == ~(last.op = "SendTo" /\ last.res = "MsgSize")
 W_Resolved       == ~(last.op = "Resolve" /\ last.val \notin {0, 1})
 W_ByName         == ~(last.op = "Accept" /\ w.sk[last.c][last.s].name # "")
